@@ -164,9 +164,12 @@ impl RsdpV2Tag {
     /// Validation of the RSDPv2 extended checksum
     #[must_use]
     pub fn checksum_is_valid(&self) -> bool {
-        let bytes = unsafe {
-            slice::from_raw_parts(self as *const _ as *const u8, self.length as usize + 8)
-        };
+        let length = self.length as usize;
+        // The RSDP copy can't be bigger than what this tag holds.
+        if length > Self::BASE_SIZE - core::mem::size_of::<TagHeader>() {
+            return false;
+        }
+        let bytes = unsafe { slice::from_raw_parts(self as *const _ as *const u8, length + 8) };
         bytes[8..]
             .iter()
             .fold(0u8, |acc, val| acc.wrapping_add(*val))
